@@ -95,6 +95,7 @@ namespace
         std::map<std::pair<std::int64_t, std::int64_t>, std::vector<Op>> scripts;
         std::vector<std::int64_t>                                         runs;
         std::int64_t                                                      tag_counter{0};
+        std::int64_t                                                      hb_due{0};  // heartbeat: time of its pending raw wake-up (rebased us)
     };
 
     Harness             *H = nullptr;
@@ -388,6 +389,22 @@ namespace
                 else { std::this_thread::sleep_for(std::chrono::microseconds(op.arg)); }
             }
             else if (op.kind == 7) { static_cast<void>(view.evaluation_clock().now()); }
+            else if (op.kind == 8 && i == 0)
+            {
+                // the push-kind heartbeat: a raw single-shot request, made only when it holds no future wake-up
+                // (so an evaluation caused by a push to another source leaves its timer alone)
+                const std::int64_t shift = H->hooks ? 0 : H->offset;
+                const std::int64_t now_l = us(now) - shift;
+                if (H->hb_due > now_l || op.arg < 0) { continue; }
+                view.graph_value()->schedule_node(view.node_index(), now + TimeDelta{op.arg});
+                const bool         entered = view.started() ? op.arg > 0 : op.arg >= 0;
+                const std::int64_t eff     = entered ? now_l + op.arg : 0;
+                if (entered) { H->hb_due = eff; }
+                Line l{19, i, 8, op.arg, eff, 0, 0, 0};
+                if (!H->hooks) { l[6] = now_logged(); l[7] = l[6]; }
+                if (H->hooks) { loop_event(std::move(l), false); }
+                else { log_free(std::move(l)); }
+            }
         }
     }
 
@@ -424,13 +441,21 @@ namespace
                 log_free({16, us(g.evaluation_time()) - H->offset, w});
             }
         }
-        void on_after_graph_evaluation(const GraphView &) override
+        void on_after_graph_evaluation(const GraphView &g) override
         {
-            if (H->hooks) { loop_event({20}); }
+            // the cache the run loop takes its next target from
+            const DateTime     next = g.next_scheduled_time();
+            const std::int64_t nx   = next == MAX_DT ? -1 : us(next) - H->offset;
+            if (H->hooks)
+            {
+                loop_event({20});
+                loop_event({23, nx}, false);
+            }
             else
             {
                 const std::int64_t w = now_logged();
                 log_free({20, w});
+                log_free({23, nx});
             }
             std::lock_guard lk{H->m};
             H->in_node_code = false;
@@ -445,7 +470,7 @@ namespace
 
         Harness h;
         H = &h;
-        std::int64_t start = 1000, end = 2000, slice = 1000, virt = 1, v0 = 900, nnodes = 1, prestop = 0;
+        std::int64_t start = 1000, end = 2000, slice = 1000, virt = 1, v0 = 900, nnodes = 1, prestop = 0, heartbeat = 0;
         h.dflt = 1;
         for (const Line &l : c)
         {
@@ -472,6 +497,7 @@ namespace
             }
             else if (l[0] == 6 && l.size() >= 2) { nnodes = l[1]; }
             else if (l[0] == 7 && l.size() >= 2) { prestop = l[1]; }
+            else if (l[0] == 8 && l.size() >= 2) { heartbeat = l[1]; }
         }
         if (nnodes < 1) { nnodes = 1; }
         if (nnodes > 4) { nnodes = 4; }
@@ -500,6 +526,27 @@ namespace
             cb.evaluate = [](const NodeView &, DateTime) {
                 if (H->hooks) { loop_event({17}); }
                 else { log_free({17}); }
+            };
+            gb.add_node(NodeBuilder::native(std::move(schema), std::move(cb)));
+        }
+        if (heartbeat != 0)
+        {
+            // a second node of the push-source prefix: push-kind, owns a raw timer (script id 0).  It is evaluated
+            // when its slot is due AND whenever a push is pending for any push source.
+            NodeTypeMetaData schema;
+            schema.display_name  = "hgv_heartbeat";
+            schema.output_schema = ts_int;
+            schema.node_kind     = NodeKind::PushSource;
+            NodeCallbacks cb;
+            cb.start = [](const NodeView &v, DateTime t) {
+                if (H->hooks) { loop_event({9, 0}); }
+                run_ops(0, v, t, -1);
+            };
+            cb.evaluate = [](const NodeView &v, DateTime t) {
+                const std::int64_t k = H->runs[0]++;
+                if (H->hooks) { loop_event({18, 0, k}); }
+                else { log_free({18, 0, k}); }
+                run_ops(0, v, t, k);
             };
             gb.add_node(NodeBuilder::native(std::move(schema), std::move(cb)));
         }
